@@ -198,6 +198,7 @@ def oracle_ds(ds, sw, desc, requested=None):
     for c, v in desc['var_coords'].items():
         if c in dimset and canon(ds[c].values) != canon(v): return f'coordinate {c} not recorded'
     for r in desc['resources']:
+        if r in desc['constants']: continue        # one name given as both: the statement does not say which rule wins
         if r in ds.attrs or r in ds.coords or r in ds.data_vars: return f'resource {r} was recorded'
     for a, v in desc['attrs'].items():
         if canon(ds.attrs.get(a, '<absent>')) != canon(v): return f'attribute {a} not kept'
